@@ -18,6 +18,17 @@ TRUSTED = [
 ]
 
 
+def narrow(rng, x):
+    """the same COO array with its coordinates stored in a narrow (possibly unsigned) index dtype"""
+    import sparse
+
+    if not isinstance(x, sparse.COO) or not x.ndim or max(x.shape, default=0) >= 100 or rng.random() > 0.35:
+        return x, ""
+    dt = rng.choice([np.int8, np.uint8, np.uint16, np.int32, np.uint32])
+    y = sparse.COO(x.coords.astype(dt), x.data, shape=x.shape, fill_value=x.fill_value, sorted=True, has_duplicates=False)
+    return y, ":" + np.dtype(dt).name
+
+
 def members(rng, shp, axis, n, fill, empty_ok=True):
     import sparse
 
@@ -136,6 +147,7 @@ def leg_c(ctx, rng, n):
             shp = gen.shape(rng, 2, 4, extents=[0, 1, 2, 3, 4])
             d = gen.dense(rng, shp, 0).astype(dt)
             x, fd = gen.to_format(rng, d, "coo", 0)
+            x, suf = narrow(rng, x); fd += suf
             k = int(rng.integers(-6, 7))
             case = {"op": op, "format": fd, "dense": d.tolist(), "k": k}
             it_ = lambda: getattr(sparse, op)(x, k)  # noqa: E731
@@ -149,6 +161,7 @@ def leg_c(ctx, rng, n):
             shp[a2] = shp[a1]
             d = gen.dense(rng, tuple(shp), fill).astype(dt)
             x, fd = gen.to_format(rng, d, "coo", fill)
+            x, suf = narrow(rng, x); fd += suf
             off = int(rng.integers(-shp[a1] - 1, shp[a1] + 2))
             r1, r2 = (a1 - nd if rng.random() < 0.3 else a1), (a2 - nd if rng.random() < 0.3 else a2)
             case = {"op": op, "format": fd, "dense": d.tolist(), "offset": off, "axis1": r1, "axis2": r2, "fill": fill}
@@ -159,6 +172,7 @@ def leg_c(ctx, rng, n):
             shp = gen.shape(rng, 1, 3, extents=[0, 1, 2, 3])
             d = gen.dense(rng, shp, 0).astype(dt)
             x, fd = gen.to_format(rng, d, "coo", 0)
+            x, suf = narrow(rng, x); fd += suf
             ax = int(rng.integers(0, len(shp)))
             n_ax = shp[ax]
             case = {"op": op, "format": fd, "dense": d.tolist(), "axis": ax}
@@ -176,6 +190,7 @@ def leg_c(ctx, rng, n):
             shp = gen.shape(rng, 1, 3, extents=[1, 2, 3, 4])
             d = gen.dense(rng, shp, fill).astype(dt)
             x, fd = gen.to_format(rng, d, str(rng.choice(["coo", "gcxs"])), fill)
+            x, suf = narrow(rng, x); fd += suf
             ax = int(rng.integers(-len(shp), len(shp))) if rng.random() < 0.85 else None
             size = d.size if ax is None else shp[ax]
             ind = rng.integers(-size, size, size=int(rng.integers(0, 5)))
